@@ -14,7 +14,9 @@ EXES = ["m_cmd"]
 GEN = True
 THEOREMS = ["tables_ok2", "decode_construct", "decode_construct_gen", "render_preserved", "no_shared_frame",
             "std_param_rejected", "std_arity_rejected", "destination_rejected", "wrong_kind_rejected",
-            "byte_param_rejected", "slice_write_rejects", "std_accepted_is_legal"]
+            "byte_param_rejected", "slice_write_rejects", "std_accepted_is_legal", "dapc_accepted_is_legal",
+            "special_accepted_is_legal", "shortSpecial_accepted_is_legal", "initialise_accepted_is_legal",
+            "devStd_accepted_is_legal", "devInst_accepted_is_legal", "devSpecial_accepted_is_legal"]
 TRUSTED = ["hand-written models Model/Construct.lean (argument handling) and Model/Decode.lean (frame assembly), tied "
            "on every run over all concrete classes x all destinations x parameter values (exhaustive for 4-bit and "
            "8-bit parameters, sampled for two-byte specials and instance bytes) plus a malformed-argument stream"]
@@ -24,7 +26,7 @@ PARTIAL = ("an instance-byte object passed as *destination* of a device command 
            "(it has add_to_frame) and overwrites the instance byte; the property's list of wrong-kind addresses does "
            "not include it, it is noted in DESIGN.md and not alarmed. UnknownEvent built without data has no "
            "round-trippable text (decoding always yields data) and is excluded from the read-back quantifier. "
-           "construct_* theorems cover the rejection clauses per argument kind; acceptance => WF is tied by the harness.")
+           "acceptance => WF is proved per constructor family for commands (…_accepted_is_legal); for events the keyword handling is tied by the harness only.")
 LEVEL_TEXT = ("Lean 4 theorem decode_construct: for EVERY registry satisfying the decidable TableOK2 and EVERY legal object "
               "(all classes, destinations, parameters, instance bytes, scheme fields, event data - no bound), the frame "
               "assembly succeeds and decoding it under the object's own device type / a map naming its instance type "
